@@ -690,11 +690,16 @@ def run(tier: str, replay: str | None = None):
 
     # 2. cases
     cases = []  # (sig, raw)
+    kind_cases = []  # (kind, sig, raw, presets): other callable kinds, end to end
     if replay:
         r = json.loads(Path(replay).read_text())
         c = r["input"]
-        cases.append((c["sig"], c["raw"]))
+        if "kind" in c:
+            kind_cases.append((c["kind"], c["sig"], c["raw"], tuple(c["presets"]) if c.get("presets") else None))
+        else:
+            cases.append((c["sig"], c["raw"]))
     else:
+        kind_cases += gen_kind_cases(rng, 1200 if not thorough else 9000)
         cases += load_corpus()
         small = [s for n in range(0, 4) for s in valid_sigs(n)]
         n_small = 3 if not thorough else 14
@@ -823,6 +828,54 @@ def run(tier: str, replay: str | None = None):
                 if ok != direct:
                     e2e_bad.append({"input": {"sig": sig, "raw": raw, "def": sig_text(sig), "call": call_text(raw)}, "module_accepts": ok, "bind_arguments_accepts": direct})
 
+    # 5b. other callable kinds through arg_spec (methods, classes, dataclasses, NamedTuple, partial)
+    kind_hist = {}
+    kind_other = {}
+    n_partial_unchecked = 0
+    if kind_cases:
+        kres, kind_other = run_kind_modules(kind_cases)
+        kmodel = lib.ocaml_run(exe, ["B" + enc_sig(effective_sig(k, s_)) + "|" + enc_raw(r_) for k, s_, r_, _ in kind_cases]) if exe is not None else [None] * len(kind_cases)
+        for (kind, sig, raw, presets), (acc, py, fobj), m in zip(kind_cases, kres, kmodel):
+            h = kind_hist.setdefault(kind, {"calls": 0, "accepted": 0, "concrete": 0})
+            h["calls"] += 1
+            h["accepted"] += int(acc)
+            eff = effective_sig(kind, sig)
+            defn, callee = kind_definition(kind, sig, 0, presets)
+            payload = {"kind": kind, "sig": sig, "raw": raw, "presets": list(presets) if presets else None, "def": "; ".join(x.strip() for x in defn), "call": call_text(raw, callee)}
+            bad = None
+            if py is not None:
+                h["concrete"] += 1
+                if acc and py == "ERR":
+                    if kind == "partial":
+                        n_partial_unchecked += 1  # partial.__call__(*args, **kwargs) binds; the TypeError is raised by the wrapped call
+                    else:
+                        bad = ("accepted", "CPython raises TypeError")
+                elif not acc and py == "OK":
+                    bad = ("rejected (incompatible_call)", "CPython binds the call")
+            else:
+                some, some_ne = star_oracle_callable(fobj, eff, raw)
+                if acc and not some:
+                    if kind == "partial":
+                        n_partial_unchecked += 1
+                    else:
+                        bad = ("accepted", "no expansion binds under CPython")
+                elif not acc and some_ne:
+                    bad = ("rejected (incompatible_call)", "an expansion taking at least one element from every star-argument binds under CPython")
+            if bad:
+                model_agrees = m is not None and (not m.startswith("ERR")) == acc and kind != "partial"
+                fid = None
+                if acc and guard_positional_after_star_args(raw):
+                    fid = "C05-positional-after-star-args"
+                elif not acc and not is_concrete(raw) and guard_kw_after_star_args(eff, raw):
+                    fid = "C05-keyword-after-star-args"
+                if fid and model_agrees:
+                    hist["known"][fid] = hist["known"].get(fid, 0) + 1
+                    rep.known(fid, KNOWN_TEXT[fid])
+                else:
+                    failing.append((payload, bad[0], bad[1]))
+            elif m is not None and kind != "partial" and (not m.startswith("ERR")) != acc:
+                corr.append({"input": payload, "model": canon_model(m), "impl": "accepted" if acc else "rejected"})
+
     # 6. verdicts
     for payload, obs, exp in failing[:10]:
         rep.violation({"kind": "failing-input", "input": payload, "observed": obs, "expected": exp, "how_to_run": "./check C05 --replay <this file>", "oracle": "CPython executes the call"})
@@ -852,7 +905,7 @@ def run(tier: str, replay: str | None = None):
         rep.harness_error("specification PyBind.py_bind_full disagrees with CPython on " + json.dumps(sb))
 
     rep.coverage.update(
-        evaluations=len(cases) + n_e2e + n_validity,
+        evaluations=len(cases) + n_e2e + n_validity + len(kind_cases),
         distinct_nontrivial=len(distinct),
         rule="a case = (def signature, call shape); signatures: every def-expressible signature with <=3 parameters (all kinds x default patterns), a sample (thorough: all) with 4, random ones up to 6; "
         "call shapes: positional section of plain positionals / tuple displays / unknown-length *xs, keyword section of keywords (parameter names and strangers) / dict displays / unknown **kw, "
@@ -869,6 +922,10 @@ def run(tier: str, replay: str | None = None):
         end_to_end_calls=n_e2e,
         end_to_end_mismatches=len(e2e_bad),
         end_to_end_other_codes=e2e_other,
+        callable_kinds=kind_hist,
+        callable_kind_calls=len(kind_cases),
+        callable_kind_other_codes=kind_other,
+        partial_calls_never_checked=n_partial_unchecked,
         exhaustive=False,
     )
     rep.assumptions = [
@@ -888,3 +945,149 @@ KNOWN_TEXT = {
     "C05-keyword-after-star-args": "f(*args, b=1) for def f(a, b) is rejected ('may be filled from both *args and a keyword argument') although f(*[1], b=1) binds",
     "C05-positional-after-star-args": "positional arguments after an unknown-length *args are merged into it: f(*xs, 1, 2) for def f(a) is accepted although no expansion binds",
 }
+
+
+# ---------------------------------------------------------------------------
+# phase 3: other callable kinds, end to end through arg_spec
+#   method / classmethod / staticmethod / class with __init__ / class with __new__ /
+#   dataclass / dataclass(kw_only=True) / NamedTuple / functools.partial
+# A kind case = (kind, sig, raw[, presets]); the same module text is analysed by
+# pyanalyze and exec'd under CPython, and every call expression is evaluated.
+
+CALLABLE_KINDS = ["method", "classmethod", "staticmethod", "init", "new", "dataclass", "dataclass_kw", "namedtuple", "partial"]
+
+
+def fields_only(sig):
+    """dataclass / NamedTuple fields: positional-or-keyword parameters only"""
+    return all(k == POK for _, k, _ in sig) and len(sig) > 0
+
+
+def plain_header(sig):
+    return header(sig).replace("=('d', '", "=('d_', '") if sig else ""
+
+
+def kind_definition(kind, sig, idx, presets=None):
+    """-> (list of source lines defining the callable, callee expression)"""
+    h = plain_header(sig)
+    hs = (", " + h) if h else ""
+    n = f"{idx}"
+    if kind == "method":
+        return [f"class K{n}:", f"    def m(self{hs}): return locals()"], f"K{n}().m"
+    if kind == "classmethod":
+        return [f"class K{n}:", "    @classmethod", f"    def m(cls{hs}): return locals()"], f"K{n}.m"
+    if kind == "staticmethod":
+        return [f"class K{n}:", "    @staticmethod", f"    def m({h}): return locals()"], f"K{n}.m"
+    if kind == "init":
+        return [f"class K{n}:", f"    def __init__(self{hs}): pass"], f"K{n}"
+    if kind == "new":
+        return [f"class K{n}:", f"    def __new__(cls{hs}): return object.__new__(cls)"], f"K{n}"
+    if kind in ("dataclass", "dataclass_kw"):
+        deco = "@dataclasses.dataclass" + ("(kw_only=True)" if kind == "dataclass_kw" else "")
+        return [deco, f"class K{n}:"] + [f"    {nm}: int" + (" = 0" if d else "") for nm, _, d in sig], f"K{n}"
+    if kind == "namedtuple":
+        return [f"class K{n}(typing.NamedTuple):"] + [f"    {nm}: int" + (" = 0" if d else "") for nm, _, d in sig], f"K{n}"
+    if kind == "partial":
+        npre, kpre = presets
+        args = ", ".join(["1"] * npre + [f"{k}=1" for k in kpre])
+        return [f"def base{n}({h}): return locals()", f"K{n} = functools.partial(base{n}" + (", " + args if args else "") + ")"], f"K{n}"
+    raise ValueError(kind)
+
+
+def effective_sig(kind, sig):
+    if kind == "dataclass_kw":
+        return [[n, KO, d] for n, _, d in sig]
+    return sig
+
+
+def gen_kind_cases(rng, n):
+    out = []
+    tries = 0
+    while len(out) < n and tries < 20 * n:
+        tries += 1
+        kind = CALLABLE_KINDS[len(out) % len(CALLABLE_KINDS)]
+        sig = random_sig(rng, 4)
+        if kind in ("dataclass", "dataclass_kw", "namedtuple"):
+            sig = [[nm, POK, d] for nm, k, d in sig if k in (PO, POK, KO)]
+            seen = False
+            for p in sig:
+                p[2] = 1 if (seen or p[2]) else 0
+                seen = seen or bool(p[2])
+            if not sig:
+                continue
+        presets = None
+        if kind == "partial":
+            pp = [p for p in sig if p[1] in (PO, POK)]
+            npre = rng.randint(0, min(2, len(pp))) if rng.random() < 0.7 else 0
+            kcand = [p[0] for p in sig if p[1] in (POK, KO)][npre:]
+            kpre = rng.sample(kcand, rng.randint(0, min(2, len(kcand)))) if kcand and rng.random() < 0.6 else []
+            presets = (npre, kpre)
+        eff = effective_sig(kind, sig)
+        raw = guided_raw(rng, eff) if rng.random() < 0.7 else random_raw(rng, eff)
+        out.append((kind, sig, raw, presets))
+    return out
+
+
+def run_kind_modules(cases, batch=150):
+    """-> per case: (pyanalyze accepts?, 'ERR'|'OK'|None for star calls, callable object)"""
+    import contextlib
+    import io
+
+    from pyanalyze.error_code import ErrorCode
+    from pyanalyze.test_name_check_visitor import TestNameCheckVisitorBase
+
+    results = []
+    other = {}
+    for b0 in range(0, len(cases), batch):
+        chunk = cases[b0 : b0 + batch]
+        lines = ["import functools, dataclasses, typing"]
+        callees = []
+        for i, (kind, sig, raw, presets) in enumerate(chunk):
+            d, callee = kind_definition(kind, sig, i, presets)
+            lines += d
+            callees.append(callee)
+        lines.append("def run(xs: list[int], ts: tuple[int, ...], kw: dict[str, int]):")
+        call_line = {}
+        for i, (kind, sig, raw, presets) in enumerate(chunk):
+            lines.append("    " + call_text(raw, callees[i]))
+            call_line[len(lines)] = i
+        code = "\n".join(lines) + "\n"
+        buf = io.StringIO()
+        with contextlib.redirect_stderr(buf), contextlib.redirect_stdout(buf):
+            errs = TestNameCheckVisitorBase()._run_str(code, fail_after_first=False)
+        verdict = [True] * len(chunk)
+        for e in errs:
+            i = call_line.get(e["lineno"])
+            if i is not None and e["code"] is ErrorCode.incompatible_call:
+                verdict[i] = False
+            elif e["code"].name != "method_first_arg":
+                other[e["code"].name] = other.get(e["code"].name, 0) + 1
+        ns = {}
+        exec("\n".join(lines[: lines.index("def run(xs: list[int], ts: tuple[int, ...], kw: dict[str, int]):")]), ns)
+        for i, (kind, sig, raw, presets) in enumerate(chunk):
+            fobj = eval(callees[i], ns)
+            py = None
+            if is_concrete(raw):
+                try:
+                    eval(call_text(raw, "F"), {"F": fobj})
+                    py = "OK"
+                except TypeError:
+                    py = "ERR"
+            results.append((verdict[i], py, fobj))
+    return results, other
+
+
+def star_oracle_callable(fobj, eff_sig, raw):
+    _, kws = flat_counts(raw)
+    if len(set(kws)) != len(kws):
+        return False, False
+    some = some_ne = False
+    for ne, npos, ks in expansions(eff_sig, raw):
+        if (ne and some_ne) or (not ne and some):
+            continue
+        if cpython_binds(fobj, npos, ks):
+            some = True
+            if ne:
+                some_ne = True
+        if some and some_ne:
+            break
+    return some, some_ne
